@@ -6,6 +6,8 @@ Driver for C08 (Dijkstra distances, cell matrices).  Parsing, adjacency construc
 run used for the statistics and the Bellman-Ford oracle are shared with the C09 driver.
 
 ops:   G <n> <static|dyn|dynins> | E u v w | Q uni s t | Q o2m s t1 t2 …
+       PG <n> | PE u:v:w … | PQ uni s t | PQ o2m s t…    pre-history: the reused search objects first answer these
+                                                          queries on ANOTHER static graph (results unobserved)
        CELL | IN ids… | OUT ids… | E u v w
 obs (k = index of the Q line):
   F adj u:v:w …                      edge order as the searches see it (free: order inside a node)
@@ -37,6 +39,11 @@ structure GCase where
   /-- large graphs (`S` line): labels / paths are observed for these nodes only, no adjacency line -/
   sample : Option (List Nat) := none
   bad : Option String := none
+  /-- pre-history (`PG`/`PE`/`PQ` lines): queries that the REUSED search objects answered on another (static) graph
+      before the case's own queries; their results are not observed -/
+  preN : Nat := 0
+  preEdges : List Edge := []
+  preQueries : List Query := []
 deriving Inhabited
 
 /-- the nodes whose label / path is observed after every query -/
@@ -53,8 +60,18 @@ def parseCase (ops : Array String) : GCase := Id.run do
   let mut c : GCase := {}
   let mut es : Array Edge := #[]
   let mut qs : Array Query := #[]
+  let mut pes : Array Edge := #[]
+  let mut pqs : Array Query := #[]
   for l in ops do
     match words l with
+    | ["PG", n] => c := { c with preN := parseNat! n }
+    | "PE" :: items =>
+      for it in items do
+        match parseTriple it with
+        | some e => pes := pes.push e
+        | none => c := { c with bad := some s!"unparsable edge '{it}'" }
+    | ["PQ", "uni", s, t] => pqs := pqs.push (.uni (parseNat! s) (parseNat! t))
+    | "PQ" :: "o2m" :: s :: ts => pqs := pqs.push (.o2m (parseNat! s) (ts.map parseNat!))
     | ["G", n, rep] => c := { c with n := parseNat! n, rep := rep }
     | ["CELL"] => c := { c with isCell := true }
     | "IN" :: ids => c := { c with inc := ids.map parseNat! }
@@ -69,7 +86,7 @@ def parseCase (ops : Array String) : GCase := Id.run do
     | ["Q", "uni", s, t] => qs := qs.push (.uni (parseNat! s) (parseNat! t))
     | "Q" :: "o2m" :: s :: ts => qs := qs.push (.o2m (parseNat! s) (ts.map parseNat!))
     | _ => c := { c with bad := some s!"unparsable op '{l}'" }
-  return { c with edges := es.toList, queries := qs.toList }
+  return { c with edges := es.toList, queries := qs.toList, preEdges := pes.toList, preQueries := pqs.toList }
 
 def joinWith (sep : String) (xs : List String) : String := sep.intercalate xs
 def bit (b : Bool) : String := if b then "1" else "0"
@@ -205,6 +222,12 @@ def outOfDomain (c : GCase) : Option String :=
   if c.n == 0 then some "graph without nodes"
   else if c.edges.any (fun e => e.1 ≥ c.n || e.2.1 ≥ c.n) then some "edge endpoint outside 0..n"
   else if totalWeight c.edges ≥ UMAX.toNat then some "path weights may reach usize::MAX (side condition)"
+  else if c.preEdges.any (fun e => e.1 ≥ c.preN || e.2.1 ≥ c.preN) then some "pre-history edge endpoint outside 0..n"
+  else if totalWeight c.preEdges ≥ UMAX.toNat then some "pre-history path weights may reach usize::MAX"
+  else if c.preQueries.any (fun q => match q with
+      | .uni s t => s ≥ staticNodes c.preEdges || s ≥ c.preN || t ≥ c.preN
+      | .o2m s ts => s ≥ staticNodes c.preEdges || s ≥ c.preN || ts.any (· ≥ c.preN) || hasDup ts) then
+    some "pre-history query outside its graph"
   else
     let nn := repNodes c
     c.queries.findSome? fun q =>
@@ -223,14 +246,33 @@ structure GraphOut where
   modelBad : Option String := none
   tr : Trace := {}
 
+/-- the reused model objects after the pre-history (fresh objects when there is none) -/
+def preStates (c : GCase) : Uni × O2M × Option String := Id.run do
+  let adjP := adjFn (adjArrOf c.preN (fastSort c.preEdges))
+  let mut uni := Uni.new
+  let mut o2m := O2M.new
+  let mut bad : Option String := none
+  for q in c.preQueries do
+    match q with
+    | .uni s t =>
+      match uniRun adjP c.preN uni s t with
+      | .ok (st, _) => uni := st
+      | _ => bad := some "model stuck in the pre-history"
+    | .o2m s ts =>
+      match o2mRun adjP c.preN o2m s ts with
+      | .ok (st, _) => o2m := st
+      | _ => bad := some "model stuck in the pre-history"
+  return (uni, o2m, bad)
+
 def runModelGraph (c : GCase) (adj : Adj) : GraphOut := Id.run do
   let n := c.n
   let large := c.sample.isSome
   let watch := c.watch
   let mut out : Array String := if large then #[] else #[renderAdj n adj]
-  let mut uni := Uni.new
-  let mut o2m := O2M.new
-  let mut bad : Option String := none
+  let (u0, o0, pbad) := preStates c
+  let mut uni := u0
+  let mut o2m := o0
+  let mut bad : Option String := pbad
   let mut tr : Trace := {}
   let mut k := 0
   for q in c.queries do
